@@ -55,6 +55,10 @@ pub enum RangeError {
     /// Maximum retry attempts exceeded
     #[error("Maximum retry attempts exceeded")]
     MaxRetriesExceeded,
+
+    /// Archive name is not a hex hash of at least four digits
+    #[error("Invalid archive name: {0:?}")]
+    InvalidArchiveName(String),
 }
 
 impl RangeDownloader {
@@ -210,6 +214,13 @@ impl RangeDownloader {
         offset: u64,
         size: u64,
     ) -> Result<Vec<u8>, RangeError> {
+        // Archive names are hex hashes taken from CDN configs; anything else (too short for
+        // the two directory levels, path separators, non-ASCII) is rejected before it is
+        // sliced into the URL.
+        if archive_name.len() < 4 || !archive_name.bytes().all(|b| b.is_ascii_hexdigit()) {
+            return Err(RangeError::InvalidArchiveName(archive_name.to_string()));
+        }
+
         // Construct archive URL with proper CDN path structure
         // Archives are stored in a two-level directory structure based on the first 4 characters
         let url = if let Some(product_path) = &cdn_endpoint.product_path {
